@@ -100,8 +100,9 @@ def run(chk, repo, tier):
     f, paths, _ = analyse(repo, 'detector.dark_current')
     okd, det = False, ''
     for p in returns(paths):
+        from ..rules import literals
         if any(pol is False and is_app(c.single_atom() or ('x',), 'lt') and ('sym', 'fpn_factor') in nf.value_atoms(c)
-               for c, pol, _ in p.conds if isinstance(c, Poly)):
+               for c, pol in literals(p.conds) if isinstance(c, Poly)):
             want = nf.floor(S('rate') * nf.app('ones', S('shape')))
             okd = p.ret == want
             det = f'returns {fmt(p.ret)}'
